@@ -160,6 +160,43 @@ pub fn run(kind: &str, seed: u64, args: &BTreeMap<String, String>, out: &mut dyn
             }
             Ok(())
         }
+        // jq programs with dialect-appropriate inputs: {"prog":..,"input":<json text>,"dialect":..}
+        // Only programs the succinctly parser accepts are emitted (C30 uses its own soups).
+        "gen-jq" => {
+            use crate::gen::jq as gq;
+            let dname = args.get("dialect").map(|s| s.as_str()).unwrap_or("core");
+            let d = match dname {
+                "core" | "core-stable" => gq::Dialect::CoreStable,
+                "full" => gq::Dialect::Full,
+                "extreme" | "full-extreme" => gq::Dialect::FullExtreme,
+                "navigation" => gq::Dialect::Navigation,
+                "write" => gq::Dialect::Write,
+                "blind" | "presentation-blind" => gq::Dialect::PresentationBlind,
+                other => return Err(format!("unknown dialect {other}")),
+            };
+            let mut g = gq::JqGen::new();
+            let mut emitted = 0usize;
+            let mut tries = 0usize;
+            while emitted < n && tries < n * 10 {
+                tries += 1;
+                let input = match d {
+                    gq::Dialect::Full | gq::Dialect::FullExtreme => gj::gen_tree(&mut r, &gj::TreeOpts {
+                        max_depth: 4, max_width: 4, budget: 20, dup_keys: false, str_class: 2, max_str: 8, num_class: 2, simple_keys: false }),
+                    gq::Dialect::CoreStable => gj::gen_tree(&mut r, &gj::TreeOpts {
+                        max_depth: 4, max_width: 4, budget: 20, dup_keys: false, str_class: 1, max_str: 8, num_class: 0, simple_keys: false }),
+                    _ => gj::gen_tree(&mut r, &gj::TreeOpts {
+                        max_depth: 4, max_width: 4, budget: 20, dup_keys: false, str_class: 1, max_str: 8, num_class: 0, simple_keys: true }),
+                };
+                let prog = g.gen(&mut r, d, &input).print();
+                if !matches!(crate::gen::jqrun::parse_guarded(&prog), Ok(Ok(_))) {
+                    continue;
+                }
+                let line = json!({"prog": prog, "input": input.to_json_text(), "dialect": d.name()});
+                writeln!(out, "{line}").map_err(|e| e.to_string())?;
+                emitted += 1;
+            }
+            Ok(())
+        }
         _ => Err(format!("unknown generator {kind}")),
     }
 }
